@@ -36,6 +36,7 @@
 From Coq Require Import ZArith List Bool Lia.
 From CSS Require Import Base.PyList ClassDB.Model ClassDB.Proofs Searcher.Model Searcher.Inv
   RuleDB.Model RuleDB.StoreProofs RuleDB.CdbFacts RuleDB.GetProofs RuleDB.AddProofs Spec.FindRule.
+From CSS Require Export RuleDB.AddHist.
 From CSS Require Props.C14.
 Import ListNotations.
 Open Scope Z_scope.
@@ -792,35 +793,9 @@ End Generic.
 Arguments form_key T d f : simpl never.
 
 (* ================================================================== 4. the default RuleDB *)
-(* re-applying the strategy of a two-way rule to the rule's parent gives a two-way rule again (in Python the rule
-   object IS strategy(comb_class); in the table model a rule carries its own kind, see the head of the file) *)
-Definition twoway_faithful (T : table) (r : rule) : Prop :=
-  r_two_way T r = true -> r_two_way T (rule_of T (r_sid r) (r_parent r)) = true.
-
-Lemma rule_of_fixed_twoway_faithful T r : rule_of T (r_sid r) (r_parent r) = r -> twoway_faithful T r.
-Proof. intros H. unfold twoway_faithful. rewrite H. auto. Qed.
-
-(* it holds for every rule object of a strategy that is not a verification strategy *)
-Lemma twoway_faithful_not_ver_strategy T r :
-  (forall x, strat_of T (r_sid r) = Some x -> (s_kind x =? 2) = false) -> twoway_faithful T r.
-Proof.
-  intros Hk. unfold twoway_faithful. intros Htw. unfold r_two_way in Htw.
-  destruct (r_kind r) eqn:Ek; try discriminate.
-  unfold entry_of in Htw. destruct (strat_of T (r_sid r)) as [x|] eqn:Es; [|discriminate].
-  unfold rule_of. destruct (r_sid r =? -1) eqn:E1.
-  - apply Z.eqb_eq in E1. rewrite E1 in Es. discriminate.
-  - rewrite Es, (Hk x eq_refl). unfold r_two_way, entry_of. cbn [r_kind r_sid r_parent]. rewrite Es. exact Htw.
-Qed.
-
-(* histories of ruledb.add calls as the searcher makes them (C04_recorded_from_table gives add_pre), interleaved
-   with arbitrary growth of the class database that keeps labels and is_empty answers *)
-Inductive add_hist (T : table) : dbst dstore -> Prop :=
-| ah_init : forall d, @WF Z d -> add_hist T (dict_init d)
-| ah_add : forall a start ends r cs, add_hist T a -> add_pre T (b_cdb dstore a) start ends r cs -> kind_ok T r ->
-    twoway_faithful T r ->
-    add_hist T (dict_add T a start ends r)
-| ah_env : forall a d', add_hist T a -> pres T (b_cdb dstore a) d' ->
-    add_hist T (mkDB dstore d' (b_r dstore a) (b_e dstore a) (b_eq dstore a) (b_stop dstore a) 0).
+(* twoway_faithful, add_hist (histories of ruledb.add calls as the searcher makes them) now live in
+   RuleDB/AddHist.v, upstream of Props/C14.v, so that RuleDB/SearchHist.v (C04_search_gives_add_hist: every run
+   of the searcher model produces such a history) can be used by Props/C14.v and Props/C02.v alike *)
 
 Lemma d_mem_set_same k v s : d_mem k (d_set k v s) = true.
 Proof. rewrite d_mem_get, d_get_set, keqb_refl. reflexivity. Qed.
